@@ -3,7 +3,7 @@
    second Segment, applies one more operation sequence to both copies and dumps everything.
    SpecFails: the two copies ever differ, or re-serialisation differs from the original bytes
    (implementation against itself).  ModelDiffers: the model (codec, put, get, delete) against Go. *)
-From Pyro Require Export Model.SegCodec Corr.CorrC03.
+From Pyro Require Export Model.SegCodec Model.MetaJson Corr.CorrC03.
 Open Scope string_scope.
 Local Open Scope Z_scope.
 
@@ -70,48 +70,8 @@ Definition oq_eqb (x y : o_query) : bool :=
 Definition otl_eqb (x y : o_tl) : bool :=
   match x, y with (a, l, d), (a', l', d') => (a =? a') && list_eqb N.eqb l l' && (d =? d') end.
 
-(* ---- UTF-8 as utf8.DecodeRune sees it; what encoding/json does to a string on the way out ----
-   json.Marshal copies every well-formed rune and writes \ufffd for each byte at which DecodeRune
-   reports (RuneError, 1); Unmarshal turns that escape into the three bytes EF BF BD. *)
-Definition u8cont (b : N) : bool := ((128 <=? b) && (b <=? 191))%N.
-Definition u8bad : bytes := [239; 191; 189]%N.
-Fixpoint utf8_fix (fuel : nat) (bs : bytes) {struct fuel} : bytes :=
-  match fuel with
-  | O => []
-  | S f =>
-      match bs with
-      | [] => []
-      | b :: r =>
-          if (b <? 128)%N then b :: utf8_fix f r
-          else if ((194 <=? b) && (b <=? 223))%N then
-            match r with
-            | c1 :: r1 => if u8cont c1 then b :: c1 :: utf8_fix f r1 else (u8bad ++ utf8_fix f r)%list
-            | _ => (u8bad ++ utf8_fix f r)%list
-            end
-          else if ((224 <=? b) && (b <=? 239))%N then
-            match r with
-            | c1 :: c2 :: r2 =>
-                let lo := if (b =? 224)%N then 160%N else 128%N in
-                let hi := if (b =? 237)%N then 159%N else 191%N in
-                if ((lo <=? c1) && (c1 <=? hi))%N && u8cont c2 then b :: c1 :: c2 :: utf8_fix f r2
-                else (u8bad ++ utf8_fix f r)%list
-            | _ => (u8bad ++ utf8_fix f r)%list
-            end
-          else if ((240 <=? b) && (b <=? 244))%N then
-            match r with
-            | c1 :: c2 :: c3 :: r3 =>
-                let lo := if (b =? 240)%N then 144%N else 128%N in
-                let hi := if (b =? 244)%N then 143%N else 191%N in
-                if ((lo <=? c1) && (c1 <=? hi))%N && u8cont c2 && u8cont c3 then b :: c1 :: c2 :: c3 :: utf8_fix f r3
-                else (u8bad ++ utf8_fix f r)%list
-            | _ => (u8bad ++ utf8_fix f r)%list
-            end
-          else (u8bad ++ utf8_fix f r)%list
-      end
-  end.
-Definition json_string_roundtrip (bs : bytes) : bytes := utf8_fix (S (length bs)) bs.
-Definition utf8_validb (bs : bytes) : bool := bytes_eqb (json_string_roundtrip bs) bs.
-
+(* UTF-8 validity and what encoding/json does to a string (utf8_fix, json_string_roundtrip, utf8_validb):
+   Model/MetaJson.v *)
 (* signature of the known finding metadata-invalid-utf8: some metadata string is not valid UTF-8, and the
    reloaded metadata is exactly what encoding/json makes of it (rate unchanged) *)
 Definition metadata_invalid_utf8 (m0 m1 : o_meta) : bool :=
@@ -129,6 +89,13 @@ Definition after_meta (bs : bytes) : option (N * bytes) :=
   match (if (Nlen bs2 <? ml)%N then None else take_bytes (N.to_nat ml) bs2) with
   | None => None
   | Some (_, rest) => Some (ver, rest)
+  end end end.
+Definition meta_block (bs : bytes) : option bytes :=
+  match uvarint_dec bs with None => None | Some (_, bs1) =>
+  match uvarint_dec bs1 with None => None | Some (ml, bs2) =>
+  match (if (Nlen bs2 <? ml)%N then None else take_bytes (N.to_nat ml) bs2) with
+  | None => None
+  | Some (mb, _) => Some mb
   end end end.
 Definition same_but_meta (x y : bytes) : bool :=
   match after_meta x, after_meta y with
@@ -201,7 +168,7 @@ Fixpoint run_ops (mok : o_meta -> o_meta -> bool) (ops : list d_op) (s : segment
 Definition check_case (c : case) : verdict :=
   let '(m0, bv) := run_build (d_build c) s_empty [] in
   let m0 := s_set_meta (meta_of (d_meta c)) m0 in
-  let dec := s_deserialize (fun _ => Some (meta_of (d_meta1 c))) (d_bytes c) in
+  let dec := s_deserialize read_meta (d_bytes c) in
   (* known finding: invalid UTF-8 in a metadata string is replaced by U+FFFD on save.  When its signature
      holds, the comparisons that involve metadata are made modulo exactly that replacement: the getters of
      the two copies must be the original resp. the replaced strings, and the serialised forms must agree
@@ -224,6 +191,14 @@ Definition check_case (c : case) : verdict :=
             | Some s => tree_matches s (d_tree1 c)
             | None => false
             end) "model decoder on Go's bytes differs from the reloaded segment";
+      corr (match dec with
+            | Some s => o_meta_eqb (m_spy (s_meta s), m_rate (s_meta s), m_units (s_meta s), m_agg (s_meta s)) (d_meta1 c)
+            | None => false
+            end) "model JSON reader on Go's metadata block differs from the reloaded getters";
+      corr (match meta_block (d_bytes c) with
+            | Some mb => bytes_eqb mb (write_meta (meta_of (d_meta c)))
+            | None => false
+            end) "metadata JSON written by Go differs from the model of json.Marshal";
       corr (match s_deserialize (fun _ => Some (s_meta m0)) (s_serialize (fun _ => []) m0) with
             | Some s => tree_matches s (d_tree0 c)
             | None => false
